@@ -944,6 +944,8 @@ def run(ctx):
 
     # ---- stream 4: command line tools, draws recorded in the child process ----
     run_cli(ctx, quick)
+    import c09_main
+    c09_main.run_shuffle_main(ctx)
     drop_redundant(ctx)
     ctx.exhaustive = False
 
